@@ -1,0 +1,47 @@
+//go:build verif && !noasm && !appengine && gc
+// +build verif,!noasm,!appengine,gc
+
+package simdjson
+
+import "bytes"
+
+// VerifStage1 runs findStructuralIndices on msg (trimmed as parseMessage does) with a collecting
+// consumer and returns the index increments of every buffer handed to stage 2, in order.
+func VerifStage1(msg []byte, ndjson bool) (deltas [][]uint32, ok bool) {
+	pj := &internalParsedJson{}
+	pj.Message = bytes.TrimSpace(msg)
+	if ndjson {
+		pj.ndjson = 1
+	}
+	pj.indexChans = make(chan indexChan, indexSlots-2)
+	pj.buffersOffset = ^uint64(0)
+	done := make(chan struct{})
+	go func() {
+		defer close(done)
+		for ic := range pj.indexChans {
+			if ic.index == -1 {
+				return
+			}
+			deltas = append(deltas, append([]uint32(nil), ic.indexes[:ic.length]...))
+		}
+	}()
+	ok = pj.findStructuralIndices()
+	<-done
+	return deltas, ok
+}
+
+// VerifChanCap reports the capacity of the index channel of a ParsedJson that has been used for parsing.
+func VerifChanCap(pj *ParsedJson) int {
+	if pj == nil || pj.internal == nil || pj.internal.indexChans == nil {
+		return -1
+	}
+	return cap(pj.internal.indexChans)
+}
+
+// VerifChanLen reports how many index buffers are still queued on a ParsedJson's channel.
+func VerifChanLen(pj *ParsedJson) int {
+	if pj == nil || pj.internal == nil || pj.internal.indexChans == nil {
+		return -1
+	}
+	return len(pj.internal.indexChans)
+}
